@@ -121,6 +121,15 @@ Theorem C11_bitflip_subkey : forall c P k0 uids subs evs e,
 Proof. exact bitflip_subkey. Qed.
 Print Assumptions C11_bitflip_subkey.
 
+(* the fuel of the packet loop and of the (nested) signature parser is never exhausted: the result
+   does not depend on it beyond the length of the input, and "fuel" is never the reported error *)
+Theorem C11_fuel_sufficient :
+  (forall f1 f2 c P l, (length l < f1)%nat -> (length l < f2)%nat -> events_fuel f1 c P l = events_fuel f2 c P l) /\
+  (forall f1 f2 l, (length l < f1)%nat -> (length l < f2)%nat -> parse_sig_fuel f1 l = parse_sig_fuel f2 l) /\
+  (forall l, parse_sig l <> Err "fuel").
+Proof. exact (conj events_fuel_stable (conj parse_sig_fuel_stable parse_sig_no_fuel_err)). Qed.
+Print Assumptions C11_fuel_sufficient.
+
 (* the hypotheses are met by a concrete key, and the listing really depends on the primitive *)
 Theorem C11_example : 
   (exists e, read_entity fixed ex_params ex_evs = Ok e /\ map id_name (e_ids e) = [bs "a"]) /\
